@@ -157,3 +157,40 @@ Proof.
   - rewrite E. f_equal. apply (nth_ext _ _ None None); [rewrite L', map_length, seq_length; reflexivity|].
     intros k Hk. rewrite L' in Hk. rewrite F by exact Hk. rewrite nth_map_seq by exact Hk. reflexivity.
 Qed.
+
+(* ------------------------------------------------------------------ leaf lists of a reduced tree *)
+(* the descendant leaves of every remaining node are the same leaves as before the drop *)
+Lemma up_levels_last lis : forall n, drops_ok n lis -> up_levels lis (n - length lis - 1) = (n - 1)%nat.
+Proof.
+  induction lis as [|li rest IH]; intros n OK; cbn [up_levels length]; [lia|].
+  destruct OK as [Hli OK]. replace (n - S (length rest) - 1)%nat with (n - 1 - length rest - 1)%nat by lia.
+  rewrite (IH _ OK). unfold up_level. replace (n - 1 - 1 <? li)%nat with false by (symmetry; apply Nat.ltb_ge; lia). lia.
+Qed.
+
+Lemma up_levels_lt lis : forall n k, drops_ok n lis -> (k < n - length lis)%nat -> (up_levels lis k < n)%nat.
+Proof.
+  induction lis as [|li rest IH]; intros n k OK Hk; cbn [up_levels length] in *; [lia|].
+  destruct OK as [Hli OK]. pose proof (IH (n - 1)%nat k OK ltac:(lia)) as H. unfold up_level.
+  destruct (up_levels rest k <? li)%nat; lia.
+Qed.
+
+Theorem drop_levels_leaves lis t t' : validate t = true -> wf t -> drops_ok (length t) lis ->
+  drop_levels t lis = TOk t' ->
+  forall k x l, (k < length t')%nat ->
+    (In l (leaves_of t' k x) <-> In l (leaves_of t (up_levels lis k) x)).
+Proof.
+  intros V W OK E k x l Hk.
+  destruct (drop_levels_preserve lis t V W OK) as (t2 & E2 & V' & W' & L' & _ & _ & _ & A & _).
+  rewrite E in E2. inversion E2; subst t2. clear E2.
+  rewrite (leaves_of_ancestor t' V' W' k x l Hk).
+  rewrite (leaves_of_ancestor t V W (up_levels lis k) x l) by (apply up_levels_lt; [exact OK | lia]).
+  rewrite A. rewrite L'. rewrite (up_levels_last lis (length t) OK). reflexivity.
+Qed.
+
+Corollary drop_level_leaves t li t' : validate t = true -> wf t -> (S li < length t)%nat ->
+  drop_level t li = TOk t' ->
+  forall k x l, (k < length t')%nat ->
+    (In l (leaves_of t' k x) <-> In l (leaves_of t (up_level li k) x)).
+Proof.
+  intros V W H E. apply (drop_levels_leaves [li] t t' V W); [cbn; tauto|]. cbn [drop_levels]. rewrite E. reflexivity.
+Qed.
